@@ -97,6 +97,28 @@ v('C07', 'fire', KA, 'cho_solve((L, True), HP', 'cho_solve((L, False), HP')
 v('C07', 'fire', KA, 'S = HP @ H.T + R', 'S = HP @ H.T')
 v('C07 C19', 'fire', KA, 'K = cho_solve((L, True), HP, overwrite_b=True).T', 'K = cho_solve((L, True), P, overwrite_b=True).T')
 v('C07', 'silent', KA, 'U = np.eye(len(x)) - K.dot(H)', 'U = np.identity(len(x)) - K @ H')
+v('C10 C11', 'fire', 'filters.py', """    start_time = times[0]
+    end_time = times[-1]
+    measurement_times = measurement_times[(measurement_times >= start_time) &""", """    start_time = times[0]
+    end_time = times[-1]
+    measurement_times = measurement_times[(measurement_times > start_time) &""", 'seeded C10 round 3: epoch at the first trajectory time excluded')
+_RPH_OLD = "    return Rotation.from_matrix(mat).as_euler('xyz', degrees=True)"
+v('C17 C05', 'fire', 'transform.py', _RPH_OLD, """    mat = np.asarray(mat, dtype=float)
+    sin_pitch = -mat[..., 2, 0]
+    cos_pitch = np.hypot(mat[..., 0, 0], mat[..., 1, 0])
+    rph = np.empty(mat.shape[:-2] + (3,))
+    rph[..., 0] = np.arcsin(mat[..., 2, 1] / cos_pitch)
+    rph[..., 1] = np.arctan2(sin_pitch, cos_pitch)
+    rph[..., 2] = np.arctan2(mat[..., 1, 0], mat[..., 0, 0])
+    return np.rad2deg(rph)""", 'seeded C17 round 3: closed form, roll through arcsin')
+v('C17 C05', 'silent', 'transform.py', _RPH_OLD, """    mat = np.asarray(mat, dtype=float)
+    sin_pitch = -mat[..., 2, 0]
+    cos_pitch = np.hypot(mat[..., 0, 0], mat[..., 1, 0])
+    rph = np.empty(mat.shape[:-2] + (3,))
+    rph[..., 0] = np.arctan2(mat[..., 2, 1], mat[..., 2, 2])
+    rph[..., 1] = np.arctan2(sin_pitch, cos_pitch)
+    rph[..., 2] = np.arctan2(mat[..., 1, 0], mat[..., 0, 0])
+    return np.rad2deg(rph)""", 'closed form with four-quadrant roll and atan2 pitch')
 v('C02', 'fire', 'strapdown.py', "        rph = transform.mat_to_rph(self.mat_nb[n_data : n_data + n_readings])\n", "        rph = transform.mat_to_rph(self.mat_nb[n_data : n_data + n_readings])\n        self.mat_nb[n_data : n_data + n_readings] = transform.mat_from_rph(rph)\n", 'seeded C02 round 3: attitude buffer re-derived from the output angles at the end of each call')
 v('C05', 'silent', 'error_model.py', '            result = self.TRANSFORM_2D_3D @ result\n        return result', '            result = util.mm_prod(self.TRANSFORM_2D_3D, result)\n        return result', 'same reduction through mm_prod')
 _SP_OLD = "        if not self.with_altitude:\n            pva = pva.copy()\n            pva.VD = 0.0\n        i = len(self.trajectory) - 1"
